@@ -107,7 +107,18 @@ impl Engine for HrEngine {
                 let rounds = if rng.chance(1, 2) { 2 } else { 1 };
                 for round in 0..rounds {
                 if round == 1 {
-                    let keep: Vec<String> = plan.iter().filter(|_| rng.chance(1, 2)).cloned().collect();
+                    let mut keep: Vec<String> = plan.iter().filter(|_| rng.chance(1, 2)).cloned().collect();
+                    // half of the time every dropped look-up is REPLACED by a look-up of another (already cached) asset, so that `a`
+                    // reads as many entries as before or more: what it no longer reads must no longer reload it all the same
+                    // (seeded change C06-i cleaned the reverse edges only when the number of dependencies shrank)
+                    if rng.chance(1, 2) {
+                        for j in 0..(plan.len() - keep.len()) {
+                            let nid = format!("n{j}");
+                            l.push(format!("src.put {} {} {} 0", hexs(&nid), hexs("s"), hexs(&rng.below(50).to_string())));
+                            l.push(format!("load S1 {}", hexs(&nid)));
+                            keep.push(format!("+S1:{nid}"));
+                        }
+                    }
                     let mut sc = vec!["1".to_string()];
                     sc.extend(keep.iter().cloned());
                     l.push(format!("src.put {} {} {} 0", hexs("a"), hexs("s"), hexs(&sc.join(" "))));
